@@ -4,9 +4,9 @@ package main
 
 import (
 	"fmt"
-	"strings"
 	"go/token"
 	"go/types"
+	"strings"
 
 	"golang.org/x/tools/go/ssa"
 )
@@ -48,13 +48,13 @@ type PStep struct {
 }
 
 type Pointer struct {
-	Kind  RootKind
-	Cell  *Cell
-	Ref   Term
-	Idx   Term
-	Glob  string
-	RootT types.Type
-	Path  []PStep
+	Kind   RootKind
+	Cell   *Cell
+	Ref    Term
+	Idx    Term
+	Glob   string
+	RootT  types.Type
+	Path   []PStep
 	SliceT types.Type // RElem: the (possibly named) slice type indexed
 }
 
@@ -90,50 +90,51 @@ type Deferred struct {
 }
 
 type Frame struct {
-	fn        *ssa.Function
-	regs      map[ssa.Value]Value
-	cells     map[*ssa.Alloc]*Cell
-	block     *ssa.BasicBlock
-	prev      *ssa.BasicBlock
-	idx       int
-	parent    *Frame
-	callInstr ssa.Instruction
-	defers    []Deferred
-	loopsSeen map[*ssa.BasicBlock]*loopEntry
-	freeVars  map[*ssa.FreeVar]Value
-	params    map[string]Value // entry values by name
-	depth     int
-	spec      *FuncSpec
-	inDefer   bool // frame was started by rundefers
+	fn         *ssa.Function
+	regs       map[ssa.Value]Value
+	cells      map[*ssa.Alloc]*Cell
+	block      *ssa.BasicBlock
+	prev       *ssa.BasicBlock
+	idx        int
+	parent     *Frame
+	callInstr  ssa.Instruction
+	defers     []Deferred
+	loopsSeen  map[*ssa.BasicBlock]*loopEntry
+	freeVars   map[*ssa.FreeVar]Value
+	params     map[string]Value // entry values by name
+	depth      int
+	spec       *FuncSpec
+	inDefer    bool         // frame was started by rundefers
 	foreachKey map[int]Term // loop ordinal → key yielded by the current iteration's Next
 }
 
 type loopEntry struct {
-	decr Term
-	has  bool
-	head *State // state at the loop head of the current iteration (for prev())
+	decr  Term
+	has   bool
+	head  *State // state at the loop head of the current iteration (for prev())
+	entry *State // state when the loop was entered (for atentry())
 }
 
 type State struct {
-	u       *Unit
-	frame   *Frame
-	cellVal map[*Cell]Value
-	heap    map[string]Term
-	pc      *PC
-	pcSet   map[string]bool
-	alloc   Term
-	written map[string]bool
-	entry   *State // snapshot at function entry (for old())
-	fresh   map[string]bool // ref terms allocated on this path
-	pathLen int
-	trace   []string
-	ghostN  map[string]Term
-	dead    bool
-	strKeys []Term
-	epoch   int
-	skipEnter bool
+	u           *Unit
+	frame       *Frame
+	cellVal     map[*Cell]Value
+	heap        map[string]Term
+	pc          *PC
+	pcSet       map[string]bool
+	alloc       Term
+	written     map[string]bool
+	entry       *State          // snapshot at function entry (for old())
+	fresh       map[string]bool // ref terms allocated on this path
+	pathLen     int
+	trace       []string
+	ghostN      map[string]Term
+	dead        bool
+	strKeys     []Term
+	epoch       int
+	skipEnter   bool
 	epochExcept map[string]bool
-	selfVal *Value
+	selfVal     *Value
 }
 
 func (f *Frame) clone() *Frame {
@@ -325,6 +326,9 @@ func (st *State) asPointer(v Value) *Pointer {
 	if !ok {
 		panic(engineErr("asPointer on non-pointer %s", v.T))
 	}
+	if st.u != nil && st.u.opaquePtrs[v.Tm.S] {
+		panic(engineErr("dereference of an opaque interior pointer (unsupported)"))
+	}
 	return &Pointer{Kind: RObj, Ref: v.Tm, RootT: pt.Elem()}
 }
 
@@ -336,7 +340,20 @@ func (st *State) ptrTerm(v Value) Term {
 	if p.Kind == RObj && len(p.Path) == 0 {
 		return p.Ref
 	}
-	// first field of a heap object etc. cannot be represented as a plain ref
+	// An interior pointer (to a field or element) used as a first-class value - e.g. stored in a struct - cannot be
+	// represented as a plain ref. It becomes an opaque non-nil value; dereferencing such a value later in the unit is an
+	// engine error (asPointer), so nothing is ever read or written through it unmodelled.
+	if p.Kind == RObj || p.Kind == RElem {
+		e := st.eng()
+		t := e.fresh("iptr", SInt)
+		st.assume(Gt(t, IntLit(0)))
+		if st.u.opaquePtrs == nil {
+			st.u.opaquePtrs = map[string]bool{}
+		}
+		st.u.opaquePtrs[t.S] = true
+		e.assumes["interior pointers stored as first-class values are opaque: a unit that dereferences one is rejected"] = true
+		return t
+	}
 	panic(engineErr("pointer to a local/field/element is used as a first-class value (unsupported): kind=%d", p.Kind))
 }
 
